@@ -1005,7 +1005,8 @@ theorem c17_processClass_eq (d : ClassDeclM) (parent : Option ClassM) (bound : L
                   hook := match d.hook with | some h => some h | none => parent.bind (·.hook)
                   attrs :=
                     let own := fields.filterMap fun f => match f.default with | .value v => some (f.name, v) | _ => none
-                    own ++ (match parent with | some p => p.attrs.filter (fun a => !own.any (·.1 == a.1)) | none => []) } := by
+                    own ++ (match parent with | some p => p.attrs.filter (fun a => !own.any (·.1 == a.1)) | none => [])
+                  own := bodySpecs opts.kwOnly (c17_inhDefault parent) d.body } := by
   cases parent <;> rfl
 
 /-- what a successful `processClass` computed -/
